@@ -2,13 +2,9 @@ import Tally.Generated.Facts
 import Tally.Model.Udp
 /-!
 Tie for C15: what `Model.Udp` / `Model.UdpMulti` / `Model.M3Batch` assume about
-`m3/thriftudp/transport.go`, `multitransport.go` and `m3/thrift/v2/m3.go`, re-checked against the
-facts extracted from the current source.
-
-The model follows repair D9 (poison after a refused write; `Flush` discards a poisoned message).
-The theorems marked (D9) state the shape of the *unrepaired* source: when the repair lands they
-stop holding, on purpose — whoever lands it restates them for the repaired shape (the expected
-one is given next to each) and checks that `Model.Udp.accept` / `flush` still say the same thing.
+`m3/thriftudp/transport.go`, `multitransport.go`, `m3/thrift/v2/m3.go` and `m3/reporter.go`,
+re-checked against the facts extracted from the current source (the tree with repair D9: the
+transport's `overflow` flag is the model's `poisoned`).
 -/
 namespace Tally.Tie.C15
 open Tally
@@ -17,35 +13,50 @@ open Tally
 theorem maxLength_is_fact : (Udp.maxLength : Int) = Facts.udpMaxLength.getD 0 := by decide
 theorem maxLength_value : Facts.udpMaxLength = some 65000 := rfl
 
-/-- `accept`: `IsOpen` first, then the strict comparison `len(buffer)+len(chunk) > MaxLength`, then append -/
+/-- `accept`: `IsOpen` first; then refused if the message is already marked incomplete or the
+strict comparison `len(buffer)+len(chunk) > MaxLength` holds, and the refusal marks it; then append -/
 theorem write_ops : Facts.udpWriteOps = ["p.IsOpen()", "p.writeBuf.Len()", "p.writeBuf.Write(buf)"] := rfl
 theorem writeByte_ops : Facts.udpWriteByteOps = ["p.IsOpen()", "p.writeBuf.Len()", "p.writeBuf.WriteByte(b)"] := rfl
 theorem writeString_ops : Facts.udpWriteStringOps = ["p.IsOpen()", "p.writeBuf.Len()", "p.writeBuf.WriteString(s)"] := rfl
-/-- (D9) expected after the repair: the same comparison preceded by / combined with the poisoned flag -/
+theorem write_guards : Facts.udpWriteGuards = ["!p.IsOpen()", "p.overflow || p.writeBuf.Len()+len(buf) > MaxLength"] := rfl
+theorem writeByte_guards : Facts.udpWriteByteGuards = ["!p.IsOpen()", "p.overflow || p.writeBuf.Len()+1 > MaxLength"] := rfl
+theorem writeString_guards : Facts.udpWriteStringGuards = ["!p.IsOpen()", "p.overflow || p.writeBuf.Len()+len(s) > MaxLength"] := rfl
 theorem write_cmp : Facts.udpWriteComparisons = ["p.writeBuf.Len()+len(buf) > MaxLength"] := rfl
 theorem writeByte_cmp : Facts.udpWriteByteComparisons = ["p.writeBuf.Len()+1 > MaxLength"] := rfl
 theorem writeString_cmp : Facts.udpWriteStringComparisons = ["p.writeBuf.Len()+len(s) > MaxLength"] := rfl
+theorem write_assigns : Facts.udpWriteAssigns = ["p.overflow = true"] := rfl
+theorem writeByte_assigns : Facts.udpWriteByteAssigns = ["p.overflow = true"] := rfl
+theorem writeString_assigns : Facts.udpWriteStringAssigns = ["p.overflow = true"] := rfl
 
-/-- `flush`: `IsOpen`, one `conn.Write` of the whole buffer, `Reset` unconditionally after it.
-(D9) expected after the repair: a poisoned check between `IsOpen` and `conn.Write`, with its own `Reset`. -/
-theorem flush_ops : Facts.udpFlushOps = ["p.IsOpen()", "p.conn.Write(p.writeBuf.Bytes())", "p.writeBuf.Reset()"] := rfl
+/-- `flush`: `IsOpen`; an incomplete message is dropped (`Reset`, flag cleared, error, no send);
+otherwise one `conn.Write` of the whole buffer and `Reset` unconditionally after it -/
+theorem flush_guards : Facts.udpFlushGuards = ["!p.IsOpen()", "p.overflow"] := rfl
+theorem flush_assigns : Facts.udpFlushAssigns = ["p.overflow = false"] := rfl
+theorem flush_ops : Facts.udpFlushOps
+    = ["p.IsOpen()", "p.writeBuf.Reset()", "p.conn.Write(p.writeBuf.Bytes())", "p.writeBuf.Reset()"] := rfl
 theorem flush_returns : Facts.udpFlushReturns
-    = ["return thrift.NewTTransportException(thrift.NOT_OPEN, \"Connection not open\")", "return err"] := rfl
+    = ["return thrift.NewTTransportException(thrift.NOT_OPEN, \"Connection not open\")",
+       "return thrift.NewTTransportException(thrift.INVALID_DATA, \"Data does not fit within one UDP packet: message discarded\")",
+       "return err"] := rfl
 
 /-- `close`: swap the flag, only the first caller closes the socket -/
 theorem close_ops : Facts.udpCloseOps = ["p.closed.Swap(true)", "p.conn.Close()"] := rfl
 theorem close_guard : Facts.udpCloseComparisons = ["!closed"] := rfl
 theorem isOpen_returns : Facts.udpIsOpenReturns = ["return !p.closed.Load()"] := rfl
 
-/-- `UdpMulti.write`: one `Write` per destination, return on the first error with the count so
-far, count = maximum written -/
+/-- `UdpMulti.write`: one `Write` per destination, no early exit (the only branch statement is the
+`continue` after recording the first error, the only return is the final one), the count is the
+maximum written while no error has been seen -/
 theorem multi_write_ops : Facts.udpMultiWriteOps = ["trans.Write(buff)"] := rfl
-theorem multi_write_cmp : Facts.udpMultiWriteComparisons = ["err != nil", "written > n"] := rfl
-theorem multi_write_returns : Facts.udpMultiWriteReturns = ["return n, err", "return n, nil"] := rfl
-/-- `UdpMulti.flush` / `close`: one call per destination, return on the first error -/
+theorem multi_write_cmp : Facts.udpMultiWriteComparisons = ["err != nil", "firstErr == nil", "firstErr == nil", "written > n"] := rfl
+theorem multi_write_returns : Facts.udpMultiWriteReturns = ["return n, firstErr"] := rfl
+theorem multi_write_branches : Facts.udpMultiWriteBranches = ["continue"] := rfl
+/-- `UdpMulti.flush`: one `Flush` per destination, no early exit, the first error is returned -/
 theorem multi_flush_ops : Facts.udpMultiFlushOps = ["trans.Flush()"] := rfl
-theorem multi_flush_cmp : Facts.udpMultiFlushComparisons = ["err != nil"] := rfl
-theorem multi_flush_returns : Facts.udpMultiFlushReturns = ["return err", "return nil"] := rfl
+theorem multi_flush_cmp : Facts.udpMultiFlushComparisons = ["err != nil", "firstErr == nil"] := rfl
+theorem multi_flush_returns : Facts.udpMultiFlushReturns = ["return firstErr"] := rfl
+theorem multi_flush_branches : Facts.udpMultiFlushBranches = [] := rfl
+/-- `UdpMulti.close`: one call per destination, return on the first error -/
 theorem multi_close_ops : Facts.udpMultiCloseOps = ["trans.Close()"] := rfl
 theorem multi_close_cmp : Facts.udpMultiCloseComparisons = ["err != nil"] := rfl
 theorem multi_close_returns : Facts.udpMultiCloseReturns = ["return err", "return nil"] := rfl
@@ -59,5 +70,15 @@ theorem send_emit_ops : Facts.m3SendEmitOps
     = ["oprot.WriteMessageBegin(\"emitMetricBatchV2\", thrift.ONEWAY, p.SeqId)", "args.Write(oprot)",
        "oprot.WriteMessageEnd()", "oprot.Flush()"] := rfl
 theorem send_emit_returns : Facts.m3SendEmitReturns = ["return", "return", "return", "return oprot.Flush()"] := rfl
+
+/-- `M3Batch.emitOps`: after a failed emit the reporter counts the error and, when the error is the
+transport's refusal, calls the transport's `Flush` once, which discards the abandoned message.
+(A send error of the client's own final `Flush` is a `*net.OpError`, not a `TTransportException`:
+no second flush, as in the model.) -/
+theorem reporter_flush_ops : Facts.m3ReporterFlushOps
+    = ["r.numBatches.Inc()", "r.client.EmitMetricBatchV2(m3thrift.MetricBatch{ Metrics: mets, CommonTags: r.commonTags, })",
+       "r.numWriteErrors.Inc()", "te.TypeId()", "r.client.Transport.Flush()"] := rfl
+theorem reporter_flush_cmp : Facts.m3ReporterFlushComparisons
+    = ["len(mets) == 0", "err != nil", "te.TypeId() == thrift.INVALID_DATA"] := rfl
 
 end Tally.Tie.C15
